@@ -132,6 +132,27 @@ fn i1(thorough: bool) -> Vec<Case> {
     iterables(thorough).into_iter().map(|(_, pre, it, _)| Case::new("I1_for_over_every_iterable", loop_over(&pre, &it, vec![print_stmt(var("x"))]))).collect()
 }
 
+/// ranges whose end points are at or beyond the largest machine integers (an infinite end point is
+/// clamped), left by break after three elements, in both directions
+fn i1_extreme_ranges() -> Vec<Case> {
+    let inf = || bin(BinOp::Div, num(1.0), num(0.0));
+    let ninf = || bin(BinOp::Div, num(-1.0), num(0.0));
+    let big = || num(9223372036854775807.0);
+    let nbig = || num(-9223372036854775808.0);
+    let ends: Vec<(Expr, Expr)> = vec![
+        (num(-1.0), inf()), (num(1.0), ninf()), (num(0.0), inf()), (num(0.0), ninf()), (ninf(), inf()), (inf(), ninf()), (inf(), num(0.0)), (ninf(), num(0.0)),
+        (num(-1.0), big()), (num(1.0), nbig()), (nbig(), big()), (big(), nbig()), (num(-2.0), num(4611686018427387904.0)), (num(4611686018427387904.0), num(-4611686018427387904.0)),
+        (big(), inf()), (nbig(), ninf()),
+    ];
+    let mut out = Vec::new();
+    for (b, e) in ends {
+        let body = vec![print_stmt(var("x")), expr_stmt(assign("n", bin(BinOp::Add, var("n"), num(1.0)))), st(StmtKind::If(bin(BinOp::Eq, var("n"), num(3.0)), vec![st(StmtKind::Break)], None))];
+        let rng = Expr::Paren(Box::new(bin(BinOp::Range, Expr::Paren(Box::new(b)), Expr::Paren(Box::new(e)))));
+        out.push(Case::new("I1_extreme_ranges", vec![var_stmt("n", num(0.0)), var_stmt("r", rng), print_stmt(var("r")), st(StmtKind::For("x".into(), var("r"), body)), print_stmt(var("n"))]));
+    }
+    out
+}
+
 fn i2(thorough: bool) -> Vec<Case> {
     let mut out = Vec::new();
     for (desc, pre, it, _) in iterables(thorough) {
@@ -337,19 +358,19 @@ fn i5() -> Vec<Case> {
 }
 
 pub fn cases_for_c04(thorough: bool) -> Vec<Case> {
-    i1(thorough).into_iter().chain(i2(thorough)).chain(i4()).chain(i5()).collect()
+    i1(thorough).into_iter().chain(i1_extreme_ranges()).chain(i2(thorough)).chain(i4()).chain(i5()).collect()
 }
 
 pub fn run(ctx: &Ctx) -> Report {
     let mut report = Report::new();
     let thorough = ctx.thorough();
-    let cases = i1(thorough).into_iter().chain(i2(thorough)).chain(i3(thorough)).chain(i4()).chain(i5());
+    let cases = i1(thorough).into_iter().chain(i1_extreme_ranges()).chain(i2(thorough)).chain(i3(thorough)).chain(i4()).chain(i5());
     let hooks = Hooks { attribute: &|_c, _m, _o, _mm| None, nontrivial: &|_c, m| m.out.len() >= 2 || matches!(m.outcome, Outcome::Uncaught(_)), fuel: 2_000_000 };
     let stats = mcheck::run(ctx, cases, &hooks);
     mcheck::fill_report(
         &mut report,
         &stats,
-        "I1: a for loop over every vec/tuple of length 0-3, every range b..e with b,e in [-2,3], every string of up to 2/3 characters over a 1-4-byte alphabet, and user-defined iterables (an iterator: normal, early stop; an iterator whose iter() starts over; a collection whose iter() makes a new cursor object); I2: break/continue/return at each element position, nested loops over one iterable, one shared iterator; I3: every map/filter chain up to depth 2/3 with callbacks {identity, transform, predicate, always false, throwing on the second call}, reduce, collect, bad callbacks - on user-defined iterables both through iter() and directly on the object, on a reused object and after a loop left by break; I4: non-iterables, broken protocols, StopIter subclass, exhausted iterators; I5: push/pop/set of a vec at each position during its own iteration. non-trivial = at least two lines or an error.",
+        "I1: a for loop over every vec/tuple of length 0-3, every range b..e with b,e in [-2,3], every string of up to 2/3 characters over a 1-4-byte alphabet, and user-defined iterables (an iterator: normal, early stop; an iterator whose iter() starts over; a collection whose iter() makes a new cursor object); and 16 ranges with end points at or beyond the largest machine integers, left by break; I2: break/continue/return at each element position, nested loops over one iterable, one shared iterator; I3: every map/filter chain up to depth 2/3 with callbacks {identity, transform, predicate, always false, throwing on the second call}, reduce, collect, bad callbacks - on user-defined iterables both through iter() and directly on the object, on a reused object and after a loop left by break; I4: non-iterables, broken protocols, StopIter subclass, exhausted iterators; I5: push/pop/set of a vec at each position during its own iteration. non-trivial = at least two lines or an error.",
         json!({"sequence_length": 3, "string_chars": if thorough { 3 } else { 2 }, "adapter_depth": if thorough { 3 } else { 2 }}),
     );
     report.assumptions = vec!["vec iteration is by cursor index into the live vec; `for` stops at an instance whose class is exactly StopIter (Appendix A)".into()];
